@@ -22,8 +22,9 @@ DEFAULT_WEIGHTS = {
 
 class Gen:
     def __init__(self, rng, weights=None, max_conns=5, uids=(0,), fdpass=False, names=None, rule_uniques=True, big=None, maxfds=16,
-                 no_eavesdrop=False, bigheader=0):
+                 no_eavesdrop=False, bigheader=0, request_uniques=False):
         self.bigheader = bigheader
+        self.request_uniques = request_uniques     # RequestName / ReleaseName also for unique names of live connections (own and others')
         self.maxfds = maxfds
         self.no_eavesdrop = no_eavesdrop
         self.stalled = set()
@@ -239,9 +240,15 @@ class Gen:
         if k == "request":
             name = self.r.choice(self.names) if self.r.random() < 0.9 else self.r.choice(BAD_NAMES)
             flags = self.r.choice([0, 1, 2, 3, 4, 5, 6, 7]) if self.r.random() < 0.93 else self.r.choice([8, 0x10 | 3, 0xffffffff, 0x80000004])
+            live = [v["unique"] for v in self.open.values() if v["unique"]]
+            if self.request_uniques and live and self.r.random() < 0.2:
+                name = self.r.choice(live)             # the unique name of a live connection: never to be had, queued for or released
             self.bus_call(cid, "RequestName", "su", [name, flags])
         elif k == "release":
             name = self.r.choice(self.names) if self.r.random() < 0.9 else self.r.choice(BAD_NAMES + ([c["unique"]] if c["unique"] else []))
+            live = [v["unique"] for v in self.open.values() if v["unique"]]
+            if self.request_uniques and live and self.r.random() < 0.2:
+                name = self.r.choice(live)
             self.bus_call(cid, "ReleaseName", "s", [name])
         elif k == "query":
             which = self.r.choice(["GetNameOwner", "NameHasOwner", "ListNames", "ListQueuedOwners", "GetConnectionUnixUser"])
